@@ -7,7 +7,7 @@ func init() {
 		Assumptions: []string{"interval-set model validated by selfcheck", "documented no-copy constructors (Roaring32AsRoaring64, BSI FromBitmaps) are excluded", "pointer identities read through the hook are compared as integers (non-moving Go heap)"},
 		Units: []Unit{
 			{Name: "population", Quick: 1500, Thorough: 80000, Run: c07Pop},
-			{Name: "population64", Quick: 500, Thorough: 25000, Run: c07Pop64},
+			{Name: "population64", Quick: 1500, Thorough: 40000, Run: c07Pop64},
 		},
 	})
 }
